@@ -94,7 +94,7 @@ func runC15Lanes(w *World, r *Report) {
 		for k := 0; k < 4; k++ {
 			b[k] = srcBV(fmt.Sprintf("W%d", k), 8, 8, false)
 		}
-		return &bvVal{Bytes: b}
+		return bytesView(b)
 	}
 	// wordBit(i): which wire bit is bit i of the big-endian word
 	wordBit := func(i int) Bit { return Bit{K: 's', Src: fmt.Sprintf("W%d", 3-i/8), I: i % 8} }
